@@ -292,6 +292,12 @@ func c04Run(c *core.Ctx, idx int) {
 			c.Count("trees.with-wide-stack")
 		}
 	}
+	if sp := core.NewRng(core.Mix(uint64(c.Seed)+0x5b1ce, uint64(idx))); sp.Chance(1, 6) {
+		// (own PRNG stream, so that the rest of the case is what it was without this step)
+		if did := Spice(sp, tree, sp.Chance(1, 2), sp.Chance(1, 2), sp.Chance(1, 2)); did != "" {
+			c.Count("trees.spiced." + strings.TrimSpace(strings.ReplaceAll(strings.TrimSpace(did), " ", "+")))
+		}
+	}
 	S := tree.BuildStack()
 	desc := map[string]any{"tree": tree}
 	var u []any
